@@ -45,9 +45,44 @@ pub fn run(ctx: &mut Ctx) {
                 return;
             }
         };
+        // three routes to "the same engine at volume v"
+        let route = (idx / 6) % 3;
         let mut ev = base.clone();
-        ev.condition.set_volume(v);
-        let d = |extra: J| J::obj().set("voice", descr.clone()).set("volume_db", v).set("cond", cond.to_json()).set("observed", extra);
+        match route {
+            0 => ev.condition.set_volume(v),
+            1 => {
+                // a used engine: another volume first (and a rendering at it), then v; the 0 dB
+                // reference must likewise be reachable by setting 0.0 after a non-zero volume
+                let w = *rng.pick(&[3.0, -12.5, 0.25, 40.0]);
+                ev.condition.set_volume(w);
+                let _ = ev.synthesize(labels.clone());
+                let mut e0 = ev.clone();
+                e0.condition.set_volume(0.0);
+                if e0.condition.get_volume() != 0.0 {
+                    ctx.violation("volume-read-back", J::obj().set("voice", descr.clone()).set("history", format!("set_volume({}) then set_volume(0.0)", w)).set("got", e0.condition.get_volume()));
+                }
+                match e0.synthesize(labels.clone()) {
+                    Ok(y) if y.len() == y0.len() && y.iter().zip(&y0).all(|(a, b)| a.to_bits() == b.to_bits()) => {}
+                    _ => {
+                        ctx.violation("back-to-0db-differs-from-never-changed", J::obj().set("voice", descr.clone()).set("history", format!("set_volume({}) then set_volume(0.0)", w)));
+                    }
+                }
+                ev.condition.set_volume(v);
+            }
+            _ => {
+                // the volume is set on the condition *before* the voices' defaults are loaded into it
+                let mut c = jbonsai::Condition::default();
+                c.set_volume(v);
+                if c.load_model(&base.voices).is_err() {
+                    ctx.violation("load-model-err", J::from(descr.clone()));
+                    return;
+                }
+                ev = Engine::new(base.voices.clone(), c);
+                cond.apply(&mut ev);
+            }
+        }
+        ctx.count(&format!("route_{}", route), 1.0);
+        let d = |extra: J| J::obj().set("voice", descr.clone()).set("volume_db", v).set("route", route).set("cond", cond.to_json()).set("observed", extra);
         // read-back
         let back = ev.condition.get_volume();
         if !((back - v).abs() <= 1e-12 * v.abs().max(1.0)) {
